@@ -931,6 +931,26 @@ func ruleMsgScope(p *Prog, r *Report) {
 		st  *ssa.Store
 		pos token.Pos
 	}
+	// path of a (possibly nested) field of the parser struct, "" if not one
+	fieldPath := func(addr ssa.Value) string {
+		var names []string
+		v := addr
+		for {
+			fa, ok := v.(*ssa.FieldAddr)
+			if !ok {
+				break
+			}
+			names = append([]string{fieldOf(fa).Name()}, names...)
+			v = fa.X
+		}
+		if len(names) == 0 || derefStruct(v.Type()) != st {
+			return ""
+		}
+		if _, isAlloc := v.(*ssa.Alloc); isAlloc {
+			return "" // the parser under construction
+		}
+		return strings.Join(names, ".")
+	}
 	writes := map[string][]write{}
 	for _, fn := range p.PkgFuncs("sml") {
 		for _, b := range fn.Blocks {
@@ -939,16 +959,9 @@ func ruleMsgScope(p *Prog, r *Report) {
 				if !ok {
 					continue
 				}
-				fa, ok := s.Addr.(*ssa.FieldAddr)
-				if !ok || derefStruct(fa.X.Type()) != st {
-					continue
+				if path := fieldPath(s.Addr); path != "" {
+					writes[path] = append(writes[path], write{fn, s, s.Pos()})
 				}
-				if fn.Name() == "Parse" && fn.Signature.Recv() == nil {
-					if _, isAlloc := fa.X.(*ssa.Alloc); isAlloc {
-						continue // construction of the parser
-					}
-				}
-				writes[st.Field(fa.Field).Name()] = append(writes[st.Field(fa.Field).Name()], write{fn, s, s.Pos()})
 			}
 		}
 	}
@@ -961,10 +974,9 @@ func ruleMsgScope(p *Prog, r *Report) {
 					continue
 				}
 				if ld, ok := mu.Map.(*ssa.UnOp); ok {
-					if fa, ok := ld.X.(*ssa.FieldAddr); ok && derefStruct(fa.X.Type()) == st {
-						name := st.Field(fa.Field).Name()
-						if _, has := writes[name]; !has {
-							writes[name] = nil
+					if path := fieldPath(ld.X); path != "" {
+						if _, has := writes[path]; !has {
+							writes[path] = nil
 						}
 					}
 				}
@@ -976,20 +988,17 @@ func ruleMsgScope(p *Prog, r *Report) {
 		names = append(names, n)
 	}
 	sort.Strings(names)
-	for _, name := range names {
-		key := rule + ":sml.parser." + name
-		// (1) re-initialised in parseMessage before any other parser method runs:
-		// a store of a constant or a fresh map/slice to the field that
-		// dominates every call of a module function in parseMessage
-		reset := false
+	// resetIn: a store of a constant or fresh map/slice/zero struct to path (or a
+	// prefix of it) in parseMessage that dominates every module call there
+	isReset := func(path string) bool {
 		for _, b := range pm.Blocks {
 			for si, instr := range b.Instrs {
 				s, ok := instr.(*ssa.Store)
 				if !ok {
 					continue
 				}
-				fa, ok := s.Addr.(*ssa.FieldAddr)
-				if !ok || derefStruct(fa.X.Type()) != st || st.Field(fa.Field).Name() != name {
+				sp := fieldPath(s.Addr)
+				if sp == "" || !(sp == path || strings.HasPrefix(path, sp+".")) {
 					continue
 				}
 				switch s.Val.(type) {
@@ -1017,16 +1026,77 @@ func ruleMsgScope(p *Prog, r *Report) {
 					}
 				}
 				if dominatesAll {
-					reset = true
+					return true
 				}
 			}
 		}
-		if reset {
+		return false
+	}
+	// assignedOnAllPaths: in every function that stores path, every path from
+	// the entry to a return passes a store to it (the value is set afresh for
+	// each message, never inherited)
+	assignedOnAllPaths := func(path string) (bool, string) {
+		fnsWith := map[*ssa.Function]bool{}
+		for _, w := range writes[path] {
+			fnsWith[w.fn] = true
+		}
+		if len(fnsWith) == 0 {
+			return false, ""
+		}
+		for fn := range fnsWith {
+			gen := map[*ssa.BasicBlock]bool{}
+			for _, w := range writes[path] {
+				if w.fn == fn {
+					gen[w.st.Block()] = true
+				}
+			}
+			out := map[*ssa.BasicBlock]bool{}
+			for _, b := range fn.Blocks {
+				out[b] = true
+			}
+			out[fn.Blocks[0]] = gen[fn.Blocks[0]]
+			for changed := true; changed; {
+				changed = false
+				for _, b := range fn.Blocks {
+					in := len(b.Preds) > 0
+					for _, pr := range b.Preds {
+						in = in && out[pr]
+					}
+					if b == fn.Blocks[0] {
+						in = false
+					}
+					o := in || gen[b]
+					if o != out[b] {
+						out[b] = o
+						changed = true
+					}
+				}
+			}
+			for _, b := range fn.Blocks {
+				if ret, ok := b.Instrs[len(b.Instrs)-1].(*ssa.Return); ok && !out[b] {
+					// a return that reports failure ends the parse: nothing is carried further
+					fail := false
+					for _, rv := range ret.Results {
+						if c, ok := rv.(*ssa.Const); ok && constVal(c).K == KBool && !constVal(c).B {
+							fail = true
+						}
+					}
+					if !fail {
+						return false, fmt.Sprintf("%s can return (%s) without having assigned it", FnName(fn), p.Pos(ret.Pos()))
+					}
+				}
+			}
+		}
+		return true, ""
+	}
+	for _, name := range names {
+		key := rule + ":sml.parser." + name
+		if isReset(name) {
 			r.ok(rule, key, p.Pos(pm.Pos()), "re-initialised in parseMessage before any other parser method runs")
 			continue
 		}
-		// (2) accumulator / stream: every store is append(field, ...) or field[k:]
-		acc := len(writes[name]) > 0
+		// accumulator / stream: every store is append(field, ...) or field[k:]
+		acc := len(writes[name]) > 0 && !strings.Contains(name, ".")
 		for _, w := range writes[name] {
 			if !isSelfAppendOrReslice(w.st.Val, st, name) {
 				acc = false
@@ -1034,13 +1104,18 @@ func ruleMsgScope(p *Prog, r *Report) {
 		}
 		if acc {
 			r.ok(rule, key, "", fmt.Sprintf("only ever extended by append or advanced by reslicing (%d stores): a result list or the token stream, not per-message state", len(writes[name])))
-		} else {
-			pos := ""
-			if len(writes[name]) > 0 {
-				pos = p.Pos(writes[name][0].pos)
-			}
-			r.bad(rule, key, pos, fmt.Sprintf("parser field %s is written while a message is parsed but is neither re-initialised at the top of parseMessage nor an append-only list: its value survives the message terminator and can influence the next message", name))
+			continue
 		}
+		if ok, _ := assignedOnAllPaths(name); ok {
+			r.ok(rule, key, "", "assigned afresh on every path of the function that sets it: never inherited from the previous message")
+			continue
+		}
+		_, why := assignedOnAllPaths(name)
+		pos := ""
+		if len(writes[name]) > 0 {
+			pos = p.Pos(writes[name][0].pos)
+		}
+		r.bad(rule, key, pos, fmt.Sprintf("parser field %s is written while a message is parsed but is neither re-initialised at the start of parseMessage, nor an append-only list, nor assigned on every path (%s): its value survives the message terminator and can influence the next message", name, why))
 	}
 	r.Floor(rule, 6)
 	// the lexer re-enters the header state after the terminator, from both states
